@@ -311,7 +311,7 @@ func (s *vfSUT) RestartVariants(rm, mode string, probe func(label string)) (remo
 	files := s.indexFilesRel(closed)
 	k := len(files)
 	var rules []string
-	if mode == "exhaustive" && k <= 6 {
+	if mode == "exhaustive" && k <= 5 {
 		for m := 0; m < 1<<uint(k); m++ {
 			rules = append(rules, fmt.Sprintf("mask:%d", m))
 		}
